@@ -169,7 +169,7 @@ def drange(t0 = None, t1 = None, bump = None):
     elif is_period(bump):
         bump = bump.lower()
         bmp = period.search(bump).group()
-        if bump == bmp: ## single bump
+        if bump == bmp and (bump[-1] == 'b' or int(bump[:-1]) > 0): ## single bump (rrule cannot count backwards: negative bumps are iterated below)
             prd = bump[-1]
             interval = int(bump[:-1]) * dict(q = 3).get(prd ,1)
             if (t1-t0).days * interval < 0:
